@@ -97,7 +97,9 @@ def cosine(period):
     return lambda a, b: torch.cos(PI * _safe_norm(a - b) / period)
 
 
-def piecewise_polynomial(ls, q):
+def piecewise_polynomial(ls, q, q2_coef=None):
+    """q2_coef: replaces the r^2 coefficient (j^2 + 4j + 3)/3 of q = 2 by q2_coef(j) (only used to characterise a wrong value)"""
+
     def f(a, b):
         D = a.shape[-1]
         j = D // 2 + q + 1
@@ -108,7 +110,8 @@ def piecewise_polynomial(ls, q):
         elif q == 1:
             poly = (j + 1) * r + 1.0
         elif q == 2:
-            poly = 1.0 + (j + 2) * r + (j ** 2 + 4 * j + 3) / 3.0 * r ** 2
+            c2 = (j ** 2 + 4 * j + 3) / 3.0 if q2_coef is None else q2_coef(j)
+            poly = 1.0 + (j + 2) * r + c2 * r ** 2
         elif q == 3:
             poly = 1.0 + (j + 3) * r + (6 * j ** 2 + 36 * j + 45) / 15.0 * r ** 2 + (j ** 3 + 9 * j ** 2 + 23 * j + 15) / 15.0 * r ** 3
         else:
